@@ -13,12 +13,12 @@ from .. import jobs, scratch, workload as w
 META = dict(
     level="exploration",
     design_ref="DESIGN.md §5 C03",
-    technique="differential execution of the real solver under different schedules (worker-pool sizes, CPU affinity), target permutations and target subsets; bitwise comparison (sha256 of operator and error bytes); pool path confirmed by a hook on multiprocessing.pool.Pool.map and worker pids logged from inside run_op_integration",
+    technique="differential execution of the real solver under different schedules (worker-pool sizes, CPU affinity), target permutations and target subsets; bitwise comparison (sha256 of operator and error bytes); pool path confirmed by the worker pids logged from inside run_op_integration (and a hook on Pool.map)",
     level_text="For each random card the same targets are solved with 1 and several integration workers, in every target order and in every non-empty subset; operators and errors must be bitwise identical. Observed schedule diversity (distinct worker pids, pool.map calls) is reported.",
     level_note="Bitwise equality is what the statement says; quad is deterministic. A pool that cannot start is inconclusive. Interpreter mode (NUMBA_DISABLE_JIT=1) as in the repository's suite.",
-    rule="case = (card, variant, target); variants: cores in {2,3,-13,(-15)}, all permutations, all non-empty subsets; non-trivial = variant differs from the baseline run (other cores/order/subset) and the target requires real integration",
+    rule="case = (card, variant, target); variants: cores in {2,3,4,-13,(5,-15)} on 5-7 point grids, all permutations, all non-empty subsets; non-trivial = variant differs from the baseline run (other cores/order/subset) and the target requires real integration",
     min_nontrivial=20,
-    required_hits=["pool_map_calls", "bitwise_compared"],
+    required_hits=["pool_worker_processes", "bitwise_compared"],
     max_inconclusive_frac=0.1,
 )
 
@@ -91,7 +91,7 @@ def variants(cfg, ck):
     k = len(cfg["targets"])
     ident = list(range(k))
     vs = [dict(name="base", order=ident, cores=1)]
-    for c in ([2, 3, -13] if ck.quick else [2, 3, 5, -13, -15]):
+    for c in ([2, 3, 4, -13] if ck.quick else [2, 3, 4, 5, -13, -15]):
         vs.append(dict(name=f"cores{c}", order=ident, cores=c))
     for perm in itertools.permutations(ident):
         if list(perm) != ident:
@@ -109,11 +109,25 @@ def configs(ck):
     rng = ck.rng
     cfgs = []
     plan = [(1, 0, 4), (2, 0, 2)] if ck.quick else [(1, 0, 16), (2, 0, 14), (3, 0, 6), (1, 1, 3), (2, 1, 1)]
+    pairs = [(3, 4), (4, 5), (4, 3), (4, 4), (3, 5), (5, 4)]
+    meths = ["iterate-exact", "truncated", "perturbative-exact"]
     for qcd, qed, cnt in plan:
-        for _ in range(cnt):
-            c = w.path_cfg(rng, qcd=qcd, qed=qed, max_targets=3, npts=(3, 4), nf_pairs=[(3, 4), (4, 5), (4, 3), (4, 4), (3, 5), (5, 4)], methods=["iterate-exact", "truncated", "perturbative-exact"])
+        for i in range(cnt):
+            # grid sizes not divisible by the pool sizes, so that uneven work splitting is exercised
+            kw = dict(qcd=qcd, qed=qed, max_targets=3, npts=(5, 6, 7) if not qed else (4, 5), nf_pairs=pairs, methods=meths, scvars=(None, "expanded", "exponentiated") if not qed else (None,))
+            c = w.path_cfg(rng, **kw)
             while len(c["targets"]) < 2:
-                c = w.path_cfg(rng, qcd=qcd, qed=qed, max_targets=3, npts=(3, 4), nf_pairs=[(3, 4), (4, 5), (4, 3), (4, 4), (3, 5), (5, 4)], methods=["iterate-exact", "truncated", "perturbative-exact"])
+                c = w.path_cfg(rng, **kw)
+            if i % 2 == 1 and not qed:
+                # a target sitting exactly on a matching scale (lower and upper nf) next to one crossing it:
+                # the same stretch is then needed as a final and as an intermediate segment
+                hq = int(rng.choice([4, 5]))
+                wall = c["masses"][hq - 4] * c["ratios"][hq - 4]
+                below = max(1.3, wall / float(rng.uniform(1.3, 1.9)))
+                c["init"] = [below, hq - 1]
+                c["targets"] = [[wall, hq - 1], [wall * float(rng.uniform(1.4, 2.5)), hq], [wall, hq]][: int(rng.integers(2, 4))]
+                c["scvar"], c["xif"] = "expanded", float(rng.choice([0.5, 2.0]))
+                c["inversion"] = None
             cfgs.append(c)
     return cfgs
 
@@ -147,8 +161,11 @@ def run(ck):
                 continue
             if v["cores"] != 1:
                 ck.hit("pool_map_calls", res["pool_map"])
+                others = res["worker_pids"] - (1 if res["own_pid_used"] else 0)
+                ck.hit("pool_worker_processes", others)
                 pids_seen += res["worker_pids"]
-                if res["pool_map"] == 0:
+                if others == 0:
+                    # the integrations never left the calling process: the schedule was not varied
                     ck.inconclusive(f"variant {vname}: pool path not taken")
                     continue
             for tkey, dg in res["digest"].items():
